@@ -6,6 +6,9 @@
 import PtModel.Sexp
 import PtModel.Lower
 import PtModel.Spec
+import PtModel.HandleDist
+import PtModel.HandleEq
+import PtModel.HandleMapper
 namespace Pt
 
 def showVals (vs : List Val) : String := "(" ++ " ".intercalate (vs.map Val.toWire) ++ ")"
@@ -111,6 +114,18 @@ def handle (q : Sx) : String :=
      | none => "err:parse")
   | .list (.atom "spec" :: args) =>
     (match handleSpec args with
+     | some r => "ok " ++ r
+     | none => "err:parse")
+  | .list (.atom "dist" :: args) =>
+    (match handleDist args with
+     | some r => "ok " ++ r
+     | none => "err:parse")
+  | .list (.atom "eq" :: args) =>
+    (match handleEq args with
+     | some r => "ok " ++ r
+     | none => "err:parse")
+  | .list (.atom "mapper" :: args) =>
+    (match handleMapper args with
      | some r => "ok " ++ r
      | none => "err:parse")
   | .list [.atom "echo", x] => "ok " ++ x.toStr
